@@ -32,12 +32,39 @@ fn probe_pkp_ser() {
 }
 // @harness name=probe_pkp_de props=CXX kind=bounded bound="probe" tier=thorough backs="probe" expect=pass
 #[kani::proof]
-#[kani::unwind(16)]
+#[kani::unwind(7)]
 fn probe_pkp_de() {
     let (a, k) = (any_e_nz(), any_e_nz());
     let buf = [H[0], H[1], H[2], H[3], H[4], 1, 1, a.0, k.0];
     match PublicKeyPackage::<Toy251>::deserialize(&buf) {
         Ok(y) => { assert!(y.verifying_key().to_element() == k); core::mem::forget(y); }
+        Err(_) => { assert!(false, "de failed"); }
+    }
+}
+
+// @harness name=probe_pkp_de2 props=CXX kind=bounded bound="probe" tier=thorough backs="probe" expect=pass
+#[kani::proof]
+#[kani::unwind(7)]
+fn probe_pkp_de2() {
+    let (a, b, k) = (any_e_nz(), any_e_nz(), any_e_nz());
+    let buf = [H[0], H[1], H[2], H[3], H[4], 2, 1, a.0, 2, b.0, k.0];
+    match PublicKeyPackage::<Toy251>::deserialize(&buf) {
+        Ok(y) => { assert!(y.verifying_key().to_element() == k); assert!(y.verifying_shares().len() == 2); core::mem::forget(y); }
+        Err(_) => { assert!(false, "de failed"); }
+    }
+}
+
+pub fn noop_map_drop<K, V, A: std::alloc::Allocator + Clone>(_m: &mut BTreeMap<K, V, A>) {}
+
+// @harness name=probe_pkp_de3 props=CXX kind=bounded bound="probe" tier=thorough backs="probe" expect=pass
+#[kani::proof]
+#[kani::unwind(16)]
+#[kani::stub(<std::collections::BTreeMap<K, V, A> as Drop>::drop, noop_map_drop)]
+fn probe_pkp_de3() {
+    let (a, b, k) = (any_e_nz(), any_e_nz(), any_e_nz());
+    let buf = [H[0], H[1], H[2], H[3], H[4], 2, 1, a.0, 2, b.0, k.0];
+    match PublicKeyPackage::<Toy251>::deserialize(&buf) {
+        Ok(y) => { assert!(y.verifying_key().to_element() == k); assert!(y.verifying_shares().len() == 2); }
         Err(_) => { assert!(false, "de failed"); }
     }
 }
